@@ -172,7 +172,7 @@ def line_unit(p, item, tier, seed):
 
 # ----------------------------------------------------------------- (b) (c)
 LABELS = ["input1", "INPUT_x", "OUTPUTx", "output", "Input", "vddq", "vdd", "VDD1", "not", "buff", "AND", "x", "X", "a1", "1", "0", "9z", "s3", "_", "new_1f", "In", "Out_put",
-          "INPUTS", "inputoutput"]
+          "INPUTS", "inputoutput", "blk@s", "a@b@c", "@", "x.y", "n[3]", "\u00e9t\u00e9"]
 
 
 def relabel(c, rnd):
@@ -188,7 +188,9 @@ def relabel(c, rnd):
 
 
 def expressible(c):
-    return all(not (g.gate_type in circgen.CONST and g.operands) for g in c.gates.values())
+    """Expressible in bench text: constants carry no operands and every label is a bench identifier."""
+    return (all(not (g.gate_type in circgen.CONST and g.operands) for g in c.gates.values())
+            and all(l and not any(ch in l for ch in " \t\r\n(),=#") for l in c.gates))
 
 
 REJECTED_SRC = """
